@@ -73,6 +73,12 @@ WORKLOADS = [
     # the same section creations in a context that has a search path (sections borrow it)
     ("addtsec_new_searchpath", ["AT 0 %s %s" % (hx("m"), hx("t1"))], 40, ["SP 0 %s" % hx("/tmp")]),
     ("parse_sections_searchpath", ["PB 0 " + hx(b"m a { x = 1 } one { w = r } m a { }\n")], 60, ["SP 0 %s" % hx("/tmp")]),
+    ("parse_file_two_dirs", ["PF 0 " + hx("two.conf")], 24,
+     ["FILE %s reg %s" % (hx("d1/two.conf"), hx(b"i = 11\n")), "FILE %s reg %s" % (hx("d2/two.conf"), hx(b"i = 22\n")),
+      "SP 0 %s" % hx("d1"), "SP 0 %s" % hx("d2")]),
+    ("include_two_dirs", ["PB 0 " + hx(b'include("two.conf")\n')], 24,
+     ["FILE %s reg %s" % (hx("d1/two.conf"), hx(b"i = 11\n")), "FILE %s reg %s" % (hx("d2/two.conf"), hx(b"i = 22\n")),
+      "SP 0 %s" % hx("d1"), "SP 0 %s" % hx("d2")]),
     ("print", ["PR 0"], 3),
     ("init", ["X 1 %d" % COMMENTS], 120),
 ]
